@@ -16,7 +16,7 @@ import (
 func init() {
 	Register(&Property{
 		ID: "C16",
-		Explanation: "Decides positional agreement in the batched name<->UUID mappers: (R16.1) in Mapper.FromTuple and Mapper.ToTuple every loop iteration appends exactly two values to the batch on every feasible valuation of the subject kind (both-nil is excluded because Validate, which is evaluated, rejects it; a nil internal subject is excluded by R16.4), the tuple index is len(res) taken before the single append to res, and each deferred reader registered after the j-th append reads batch[2*i+j]; (R16.2) the value appended at position j and the field the deferred reader assigns have the same role (subject / object); the single-item mappers (FromQuery, ToQuery, ToTree) index by the position captured at the append or by first/last where that is the position on every path; (R16.3) MapStringsToUUIDsReadOnly derives uuids[i] from ss[i] with the same i, and batchFromUUIDs writes the representation of an id to exactly the result indices that id occupies; (R16.4) ToInternal sets a non-nil Subject on every path that returns a tuple; (R16.5) the storage layer keeps no process-local cache of mappings. " +
+		Explanation: "Decides positional agreement in the batched name<->UUID mappers: (R16.1) in Mapper.FromTuple and Mapper.ToTuple every loop iteration appends exactly two values to the batch on every feasible valuation of the subject kind (both-nil is excluded because Validate, which is evaluated, rejects it; a nil internal subject is excluded by R16.4), the tuple index is len(res) taken before the single append to res, and each deferred reader registered after the j-th append reads batch[2*i+j]; (R16.2) the value appended at position j and the field the deferred reader assigns have the same role (subject / object); the single-item mappers (FromQuery, ToQuery, ToTree) index by the position captured at the append or by first/last where that is the position on every path; (R16.3) MapStringsToUUIDsReadOnly derives uuids[i] from ss[i] with the same i, and batchFromUUIDs writes the representation of an id to exactly the result indices that id occupies; (R16.4) ToInternal sets a non-nil Subject on every path that returns a tuple; (R16.5) the storage layer keeps no process-local cache of mappings; (R16.6) a chunked loop's stride equals the size of the chunk built inside it (ids between the two would come back unresolved). " +
 			"Not decided: injectivity of UUIDv5 (cryptographic), the SQL round trip of the mapping rows.",
 		Assumptions: []string{"ketoapi.RelationTuple.Validate is called before the appends (checked) and rejects exactly the tuples it is evaluated to reject"},
 		Run:         runC16,
@@ -539,6 +539,7 @@ func runC16(c *Ctx) {
 	r163(c)
 	r164(c)
 	r047(c, "R16.5")
+	strideMatchesChunk(c, "R16.6")
 }
 
 // ---- R16.2 single-item mappers ---------------------------------------------------------------------
@@ -889,4 +890,114 @@ func r164(c *Ctx) {
 	}
 	r.Check(ok, "R16.4", core.FuncName(fn), "Subject set on every path", p.Pos(fn.Pos()),
 		"every path that returns a tuple assigns a non-nil Subject", "a path returns a tuple without a Subject: the mapper appends one value fewer for it and shifts every later tuple")
+}
+
+// ---- stride of a chunked loop equals the size of the chunk it consumes ---------------------------
+
+// strideMatchesChunk: in persistence/sql a loop that advances its index by a
+// stride S other than 1 processes S elements per iteration. The loop that fills
+// (or the slice that cuts) the chunk inside it must be bounded by the same S:
+// with a smaller fill the elements between fill and stride are never processed
+// (ids come back unresolved), with a larger one they are processed twice.
+func strideMatchesChunk(c *Ctx, rule string) {
+	p, r := c.P, c.R
+	n := 0
+	sameVal := func(a, b ssa.Value) bool {
+		if ka, ok := core.IntConst(a); ok {
+			kb, ok2 := core.IntConst(b)
+			return ok2 && ka == kb
+		}
+		return core.ValueOrigin(a) == core.ValueOrigin(b)
+	}
+	for _, fn := range p.KetoFuncs(sqlPkgRel) {
+		if isMigrationOrTestHelper(fn) {
+			continue
+		}
+		// outer loops: phi i with increment i + S, S not the constant 1
+		for _, b := range fn.Blocks {
+			for _, ins := range b.Instrs {
+				ph, ok := ins.(*ssa.Phi)
+				if !ok {
+					continue
+				}
+				var stride ssa.Value
+				for _, e := range ph.Edges {
+					if bo, ok := e.(*ssa.BinOp); ok && bo.Op == token.ADD && bo.X == ssa.Value(ph) {
+						if k, isK := core.IntConst(bo.Y); isK && k == 1 {
+							continue
+						}
+						stride = bo.Y
+					}
+				}
+				if stride == nil {
+					continue
+				}
+				n++
+				// inner bounds: counting loops k < N (k a unit-stride phi) inside the outer loop, and slices [i : i+N]
+				var bounds []ssa.Value
+				for _, b2 := range fn.Blocks {
+					if !sameCycle(b2, b) || len(b2.Instrs) == 0 {
+						continue
+					}
+					for _, i2 := range b2.Instrs {
+						switch x := i2.(type) {
+						case *ssa.If:
+							op, cx, cy, ok := core.BinCmp(x.Cond)
+							if !ok {
+								continue
+							}
+							if op == token.GTR {
+								op, cx, cy = token.LSS, cy, cx
+							}
+							if op != token.LSS {
+								continue
+							}
+							// rotated loops compare the incremented value: (k+1) < N
+							if inc, ok := cx.(*ssa.BinOp); ok && inc.Op == token.ADD {
+								if kk, isK := core.IntConst(inc.Y); isK && kk == 1 {
+									cx = inc.X
+								}
+							}
+							k, isPhi := cx.(*ssa.Phi)
+							if !isPhi || k == ph {
+								continue
+							}
+							unit := false
+							for _, e := range k.Edges {
+								if bo, ok := e.(*ssa.BinOp); ok && bo.Op == token.ADD && bo.X == ssa.Value(k) {
+									if kk, isK := core.IntConst(bo.Y); isK && kk == 1 {
+										unit = true
+									}
+								}
+							}
+							if unit {
+								bounds = append(bounds, cy)
+							}
+						case *ssa.Slice:
+							if x.Low != nil && core.ValueOrigin(x.Low) == ssa.Value(ph) && x.High != nil {
+								if bo, ok := x.High.(*ssa.BinOp); ok && bo.Op == token.ADD {
+									bounds = append(bounds, bo.Y)
+								}
+							}
+						}
+					}
+				}
+				okB := false
+				for _, bd := range bounds {
+					if sameVal(bd, stride) {
+						okB = true // the loop/slice that builds the chunk (other inner loops iterate over results)
+					}
+				}
+				detail := "the index advances by a stride that is not the size of the chunk built inside the loop"
+				if len(bounds) == 0 {
+					detail = "the index advances by a stride, but no inner loop or slice bounded by that stride builds the chunk"
+				}
+				r.Check(okB, rule, core.FuncName(fn), "chunk stride", p.Pos(ph.Pos()),
+					"the loop's stride is the bound of the loop/slice that builds each chunk", detail+": elements between the chunk size and the stride are skipped (or processed twice)")
+			}
+		}
+	}
+	if n < 1 {
+		r.Undecide(rule, "", "strided loops in persistence/sql", "", "none found (floor 1: batchFromUUIDs)")
+	}
 }
